@@ -53,8 +53,11 @@ type tcase struct {
 var blockSpellings = [][2]string{{"{", "}"}, {"switch(0){case 0:", "}"}, {"if(0){", "}"}, {"try{", "}finally{}"}, {"do{", "}while(0);"},
 	{"switch(0){default:", "}"}, {"if(0);else{", "}"}, {"try{}finally{", "}"}, {"while(0){", "}"}, {"try{}catch{", "}"}, {"{", "}"}}
 
-// shorthandUse: the use item at index ii of its program is spelled `({n});` (every fourth one, rotating with the program)
-func shorthandUse(v, ii int) bool { return v >= 0 && (v+ii)%4 == 3 }
+// shorthandUse: the use item at index ii of its program is spelled `({n});` (every fourth one, rotating with the program) or `[{n}];`
+func shorthandUse(v, ii int) bool { return v >= 0 && ((v+ii)%4 == 3 || (v+ii)%8 == 1) }
+
+// shorthandBare: that shorthand property stands in an object literal that is NOT directly inside parentheses: `[{n}];`
+func shorthandBare(v, ii int) bool { return v >= 0 && (v+ii)%8 == 1 }
 
 // expectedKeys: the property keys the renamed program must still show: one per shorthand-spelled use that denotes a declared
 // binding (`({a})` becomes `({a: v1_})`; a name bound nowhere keeps its name and stays `({a})`).
@@ -111,7 +114,9 @@ func SpellV(prog []item, v int) string {
 				b.WriteString(it.D + " " + it.N + ";")
 			}
 		case "use":
-			if shorthandUse(v, ii) {
+			if shorthandBare(v, ii) {
+				b.WriteString("[{" + it.N + "}];")
+			} else if shorthandUse(v, ii) {
 				b.WriteString("({" + it.N + "});") // the use as a shorthand property: key and value written once
 			} else {
 				b.WriteString(it.N + ";")
@@ -148,8 +153,14 @@ func SpellV(prog []item, v int) string {
 				b.WriteString("function " + it.N + "(" + pl + "){")
 				closers = append(closers, "}")
 			case "fx":
-				b.WriteString("(function " + it.N + "(" + pl + "){")
-				closers = append(closers, "});")
+				if it.N == "" && v >= 0 && (v+nblk)%3 == 1 {
+					// an unnamed function expression as the method of an object literal written directly in parentheses
+					b.WriteString("({m(" + pl + "){")
+					closers = append(closers, "}});")
+				} else {
+					b.WriteString("(function " + it.N + "(" + pl + "){")
+					closers = append(closers, "});")
+				}
 			case "ar":
 				// four spellings: the arrow function as a parenthesised or a bare expression statement, a single plain parameter
 				// with or without its parentheses (then it is recognised as a parameter only at '=>')
